@@ -4,6 +4,7 @@ import (
 	"context"
 	"errors"
 	"fmt"
+	"strings"
 	"sync"
 	"time"
 
@@ -192,6 +193,24 @@ func exec(e *env, sh *shape, s Scn, needClosed bool) (obs Obs) {
 		if waitRet(hardWait) && !stdDeadline {
 			fire()
 		}
+	case "between_steps":
+		// The probe fires inside the stop() / at the Err() check that follows step j. A step
+		// that never consults the caller's context (a sub-step running on context.Background
+		// or WithoutCancel) never gives it that chance; the call then reaches the stalled
+		// step k with a live context. Fire it there: the run becomes "cancelled while
+		// stalled", which must return all the same.
+		if probe != nil && s.K > 0 {
+			select {
+			case <-stallCh:
+				obs.StallSeen = true
+				if probe.FiredAt().IsZero() {
+					fire()
+				}
+			case opErr = <-opCh:
+				returned, retAt = true, time.Now()
+			case <-time.After(hardWait):
+			}
+		}
 	}
 	waitRet(hardWait + time.Duration(s.DeadlineMs)*time.Millisecond)
 
@@ -351,6 +370,17 @@ func count(e *env, sh *shape, ctxKind, impl string) ([]wire.C19Step, Obs, error)
 	}
 	in.cleanup()
 	o := Obs{Returned: true, Steps: stepKinds(steps), Closed: closed}
+	if sh.FailsAlone {
+		// the baseline of this shape is a deterministic protocol error after its script
+		if opErr == nil {
+			return steps, o, fmt.Errorf("shape is marked FailsAlone but the call succeeded: un-mark it")
+		}
+		if strings.Contains(opErr.Error(), "did not return within") {
+			return steps, o, opErr
+		}
+		o.ErrText = opErr.Error()
+		return steps, o, nil
+	}
 	if opErr != nil {
 		return steps, o, fmt.Errorf("call failed without stall or cancellation: %v", opErr)
 	}
